@@ -5,6 +5,7 @@ import (
 	"encoding/json"
 	"errors"
 	"fmt"
+	"io"
 	"os"
 	"path/filepath"
 	"runtime/debug"
@@ -12,6 +13,9 @@ import (
 	"sync"
 	"time"
 
+	"github.com/golang/snappy"
+
+	"github.com/oasisprotocol/oasis-core/go/common/cbor"
 	"github.com/oasisprotocol/oasis-core/go/common/crypto/hash"
 	"github.com/oasisprotocol/oasis-core/go/storage/mkvs"
 	"github.com/oasisprotocol/oasis-core/go/storage/mkvs/checkpoint"
@@ -422,7 +426,7 @@ func c12Tree(r *ev.Run, tr c12tree, dir string, otherCp *c12cp) *c12cp {
 	distinct := map[string]*c12cp{}
 	allSizes := sizes
 	distinctParams := map[string][2]uint64{}
-	var creations, restores, corruptions int64
+	var creations, restores, corruptions, structural int64
 	for _, th := range threadsList {
 		seenTh := map[string]bool{}
 		sizes := allSizes
@@ -470,6 +474,7 @@ func c12Tree(r *ev.Run, tr c12tree, dir string, otherCp *c12cp) *c12cp {
 	}
 	// Restore every distinct chunking, every order, both backends.
 	first := true
+	firstStruct := true
 	for k, cp := range distinct {
 		p := distinctParams[k]
 		n := len(cp.chunks)
@@ -543,12 +548,43 @@ func c12Tree(r *ev.Run, tr c12tree, dir string, otherCp *c12cp) *c12cp {
 				}
 			}
 		}
+		// (for every small tree: its first distinct chunking and every chunking of at most 3 chunks)
+		if small && (firstStruct || n <= 3) {
+			firstStruct = false
+			be := kv.Backends[(len(tr.Contents)+n+1)%2]
+			// structural forgeries of every chunk (digest forged to match): the empty-tree proof, no
+			// entries at all, every proper prefix of the entries, an extra trailing nil, every entry
+			// replaced by nil, every adjacent pair swapped, every entry doubled
+			for ci, ch := range cp.chunks {
+				fs, err := c12Forgeries(ch)
+				if err != nil {
+					violate(c12Artefact{ChunkSize: p[0], Threads: uint16(p[1]), Backend: be, Scenario: "decode", Chunk: ci}, "genuine chunk does not decode: "+err.Error())
+					continue
+				}
+				for _, f := range fs {
+					m := c12Encode(f.ents)
+					if bytes.Equal(m, ch) {
+						continue
+					}
+					mm := *cp.meta
+					mm.Chunks = append([]hash.Hash{}, cp.meta.Chunks...)
+					mm.Chunks[ci] = hash.NewFromBytes(m)
+					corruptions++
+					structural++
+					w := c12Restore(be, cp, &mm, tr.Contents, c12Orders(n)[0], map[int][]byte{ci: m}, -1, false)
+					if w != "" && !strings.HasPrefix(w, "genuine chunk") {
+						violate(c12Artefact{ChunkSize: p[0], Threads: uint16(p[1]), Backend: be, Scenario: "forged-proof:" + f.name, Chunk: ci, FixDigest: true}, "chunk "+fmt.Sprint(ci)+" replaced by the forged proof "+f.name+" (manifest digest matching): "+w)
+					}
+				}
+			}
+		}
 	}
 	r.Add("states", int64(len(distinct)))
 	r.Add("transitions", creations+restores+corruptions)
 	r.Add("checkpoint_creations", creations)
 	r.Add("restores", restores)
 	r.Add("corrupted_restores", corruptions)
+	r.Add("structurally_forged_chunks", structural)
 	r.Sample(map[string]any{"tree": tr.Name, "keys": len(tr.Contents), "distinct_chunkings": len(distinct), "one_chunk_bytes": len(one.chunks[0])}, 6)
 	return one
 }
@@ -636,6 +672,20 @@ func c12Replay(r *ev.Run) {
 		if err != nil || metaKey(cp2.meta) != metaKey(cp.meta) {
 			what = "metadata differs between two creations"
 		}
+	case strings.HasPrefix(a.Scenario, "forged-proof:"):
+		fs, _ := c12Forgeries(cp.chunks[a.Chunk])
+		for _, f := range fs {
+			if "forged-proof:"+f.name == a.Scenario {
+				m := c12Encode(f.ents)
+				mm := *cp.meta
+				mm.Chunks = append([]hash.Hash{}, cp.meta.Chunks...)
+				mm.Chunks[a.Chunk] = hash.NewFromBytes(m)
+				what = c12Restore(a.Backend, cp, &mm, tr.Contents, c12Orders(len(cp.chunks))[0], map[int][]byte{a.Chunk: m}, -1, false)
+				if strings.HasPrefix(what, "genuine chunk") {
+					what = ""
+				}
+			}
+		}
 	case a.Scenario == "corrupt-bit":
 		m := append([]byte{}, cp.chunks[a.Chunk]...)
 		m[a.Bit/8] ^= 1 << uint(a.Bit%8)
@@ -667,4 +717,64 @@ func c12Replay(r *ev.Run) {
 	}
 	fmt.Println("replay: property held")
 	os.Exit(0)
+}
+
+type c12forg struct {
+	name string
+	ents [][]byte
+}
+
+// c12Entries decodes the proof entries of a chunk.
+func c12Entries(ch []byte) ([][]byte, error) {
+	dec := cbor.NewDecoder(snappy.NewReader(bytes.NewReader(ch)))
+	var ents [][]byte
+	for {
+		var e []byte
+		if err := dec.Decode(&e); err != nil {
+			if errors.Is(err, io.EOF) {
+				return ents, nil
+			}
+			return nil, err
+		}
+		ents = append(ents, e)
+	}
+}
+
+// c12Encode writes proof entries in the chunk format.
+func c12Encode(ents [][]byte) []byte {
+	var buf bytes.Buffer
+	sw := snappy.NewBufferedWriter(&buf)
+	enc := cbor.NewEncoder(sw)
+	for _, e := range ents {
+		_ = enc.Encode(e)
+	}
+	_ = sw.Close()
+	return buf.Bytes()
+}
+
+// c12Forgeries: well-formed chunks that are not the genuine proof.
+func c12Forgeries(ch []byte) ([]c12forg, error) {
+	ents, err := c12Entries(ch)
+	if err != nil {
+		return nil, err
+	}
+	cl := func() [][]byte { return append([][]byte{}, ents...) }
+	fs := []c12forg{{"empty-tree", [][]byte{nil}}, {"no-entries", nil}, {"trailing-nil", append(cl(), nil)}}
+	for k := 1; k < len(ents); k++ {
+		fs = append(fs, c12forg{fmt.Sprintf("prefix-%d", k), cl()[:k]})
+	}
+	for k := range ents {
+		if ents[k] != nil {
+			e := cl()
+			e[k] = nil
+			fs = append(fs, c12forg{fmt.Sprintf("nil-at-%d", k), e})
+		}
+		fs = append(fs, c12forg{fmt.Sprintf("double-%d", k), append(cl()[:k+1], ents[k:]...)})
+		if k+1 < len(ents) {
+			e := cl()
+			e[k], e[k+1] = e[k+1], e[k]
+			fs = append(fs, c12forg{fmt.Sprintf("swap-%d", k), e})
+		}
+	}
+	return fs, nil
 }
